@@ -30,3 +30,25 @@ for nm in ["attr_origin","attr_med_lp","attr_nexthop_ids","attr_aspath","attr_ag
     add("C04."+nm,"VH_c04_"+nm,BGP,c04,{"unwind":200},{"unwind":200},expect_reach=["end"],merge=UM)
 add("C04.attr_unknown","VH_c04_attr_unknown",BGP,c04,{"params":{"min":250,"max":260},"unwind":400},{"params":{"min":0,"max":300},"unwind":400},expect_reach=["end"],bounds="unknown attribute whose value has symbolic length min..max (around the 255 extended-length threshold), symbolic flags")
 add("C04.fixpoint_update","VH_c04_fixpoint_update",BGP,c04,{"n":6},{"n":8},expect_reach=["end"],merge=UM,bounds="every accepted UPDATE body of up to n bytes, ADD-PATH symbolic")
+add("C19.rtr_nopanic","VH_c19_rtr_nopanic","pkg/packet/rtr",["rtr/c19.go"],{"n":40},{"n":64},expect_reach=["ok","end"],bounds="any PDU buffer of 0..n bytes + 8 stale bytes")
+add("C19.rtr_roundtrip","VH_c19_rtr_roundtrip","pkg/packet/rtr",["rtr/c19.go"],expect_reach=["end"],bounds="every constructible PDU: all field values symbolic; error report with 2..4-byte PDU and 0..3-byte text")
+MRT="pkg/packet/mrt"
+add("C19.mrt_header","VH_c19_mrt_header",MRT,["mrt/c19.go"],{"n":20},{"n":32},expect_reach=["ok","end"])
+add("C19.mrt_split","VH_c19_mrt_split",MRT,["mrt/c19.go"],{"n":24},{"n":48},expect_reach=["token","end"],bounds="any data of 0..n bytes inside a buffer with 8 stale bytes of spare capacity")
+for k in range(8):
+    nq=[24,20,20,9,16,20,20,9][k]
+    add("C19.mrt_body_tabledump.s%d"%k,"VH_c19_mrt_body_tabledump",MRT,["mrt/c19.go"],{"n":nq},{"n":nq+4},expect_reach=["end"],merge=UM,pins={"subtype":k},bounds="TABLE_DUMPv2 body of 0..n bytes, one of 8 subtypes incl. ADD-PATH variants per instance, header length symbolic")
+add("C19.mrt_body_bgp4mp","VH_c19_mrt_body_bgp4mp",MRT,["mrt/c19.go"],{"n":24},{"n":44},expect_reach=["ok","end"],merge=UM)
+add("C19.mrt_roundtrip","VH_c19_mrt_roundtrip",MRT,["mrt/c19.go"],expect_reach=["end"])
+BMP="pkg/packet/bmp"
+for nm,nq in [("initiation",12),("termination",12),("stats",14),("peerdown",10),("mirroring",10),("peerup",8),("monitoring",6)]:
+    add("C19.bmp_"+nm,"VH_c19_bmp_"+nm,BMP,["bmp/c19.go"],{"n":nq},{"n":nq+6},expect_reach=["end"],merge=UM,bounds="BMP message of the named type: common header (+42-byte per-peer header) + 0..n body bytes + 8 stale bytes")
+add("C19.bmp_anytype","VH_c19_bmp_anytype",BMP,["bmp/c19.go"],{"n":12},{"n":20},expect_reach=["end"])
+add("C19.bmp_bodies_direct","VH_c19_bmp_bodies_direct",BMP,["bmp/c19.go"],{"n":10},{"n":16},expect_reach=["end"])
+add("C19.bmp_split","VH_c19_bmp_split",BMP,["bmp/c19.go"],{"n":16},{"n":32},expect_reach=["token","end"])
+add("C19.bmp_roundtrip","VH_c19_bmp_roundtrip",BMP,["bmp/c19.go"],{"unwind":400},{"unwind":400},expect_reach=["end"])
+add("C19.bmp_noninterference","VH_c19_bmp_noninterference",BMP,["bmp/c19.go"],{"n":6},{"n":10},expect_reach=["end"],bounds="initiation/termination message of 6+0..n bytes copied into two buffers with different 8-byte stale tails")
+ZB="pkg/zebra"
+add("C19.zebra_header","VH_c19_zebra_header",ZB,["zebra/c19.go"],{"n":12},{"n":16},expect_reach=["ok","end"])
+for nm,nq in [("if",24),("ifaddr",20),("rid",20),("nhupd",16),("redist",12),("route",9),("lmconn",12),("chunk",16),("vrflbl",12),("lookup",12),("rawcmd",6)]:
+    add("C19.zebra_body_"+nm,"VH_c19_zebra_body_"+nm,ZB,["zebra/c19.go"],{"n":nq},{"n":nq+8},expect_reach=["end"],bounds="ZAPI body of 0..n bytes (+8 stale) for the named command, 8 (protocol version, software flavour) pairs covering versions 2..6")
